@@ -84,26 +84,35 @@ print('OBS ' + json.dumps(dict(argv=sys.argv, name=__name__, file=__file__, path
 
 
 def prog_text(sib, n, a, b, imp=None):
-    imp = imp or ('import %s\nfrom %s import twice' % (sib, sib))
+    imp = imp or ('import %s\nfrom %s import twice, Registry' % (sib, sib))
     return ('import sys, os, json, builtins\n%s\n\n\ndef compute(n):\n    acc = %d\n    for i in range(n):\n'
             '        if i %% 2:\n            acc += %s.val(i)\n        else:\n            acc -= twice(i) * %d\n'
             '    return acc\n\n%s\n%s\nprint("VALUE", compute(%d))\nprint("SIBFILE", os.path.basename(%s.__file__))\n'
+            'print("REGISTRY builds before use", Registry.builds)\nprint("REGISTRY", Registry().lookup(2), Registry().size, Registry.builds)\n'
             % (imp, a, sib, b, OBS_SNIPPET, ANN_SNIPPET, n, sib))
 
 
 def pkg_prog_text(n, a, b):
     """a module inside a package: relative imports at the top level, guarded by try/except ImportError
     with a fallback, inside an if block and lazily inside a function - `python -m` resolves all of them"""
-    return ('import sys, os, json, builtins\nfrom . import helper\ntry:\n    from ._fast import twice\nexcept ImportError:\n'
+    return ('import sys, os, json, builtins\nfrom . import helper\nfrom .helper import Registry\ntry:\n    from ._fast import twice\nexcept ImportError:\n'
             '    def twice(x):\n        return -1000\nif len(sys.argv) >= 0:\n    from . import helper as helper2\n\n\n'
             'def compute(n):\n    from .helper import val as lazy_val\n    acc = %d\n    for i in range(n):\n'
             '        if i %% 2:\n            acc += lazy_val(i) + helper2.val(i)\n        else:\n            acc -= twice(i) * %d\n'
             '    return acc\n\n%s\n%s\nprint("VALUE", compute(%d))\nprint("SIBFILE", os.path.basename(helper.__file__))\n'
+            'print("REGISTRY builds before use", Registry.builds)\nprint("REGISTRY", Registry().lookup(2), Registry().size, Registry.builds)\n'
             % (a, b, OBS_SNIPPET, ANN_SNIPPET, n))
 
 
 def sib_text(k):
-    return 'def val(x):\n    return x * %d + 1\n\n\ndef twice(x):\n    return 2 * x + %d\n' % (k, k)
+    """the sibling module: two functions and a class with a class-level descriptor whose evaluation is
+    observable (it prints and counts) - nothing may evaluate it before the program itself does"""
+    return ('def val(x):\n    return x * %d + 1\n\n\ndef twice(x):\n    return 2 * x + %d\n\n\n'
+            'class _Lazy:\n    def __init__(self, f):\n        self.f = f\n\n    def __get__(self, obj, owner):\n'
+            '        print("building the table")\n        owner.builds += 1\n        return self.f(owner)\n\n\n'
+            'class Registry:\n    builds = 0\n\n    @_Lazy\n    def table(cls):\n        return {1: "one", 2: "two"}\n\n'
+            '    def lookup(self, key):\n        return self.table.get(key)\n\n    @property\n    def size(self):\n'
+            '        return len(self.table)\n' % (k, k))
 
 
 SETUP_TEXT = r'''import sys, os, json, builtins
@@ -128,6 +137,9 @@ def layout(rnd):
              setup='mysetup_%s.py' % tag, setup2='setup2_%s.py' % tag)
     sa, sb, sc, sd = ('sib%s_%s' % (x, tag) for x in 'abcd')
     k = [rnd.randrange(2, 9) for _ in range(8)]
+    # the module each target imports its helpers (functions and the Registry class) from
+    n['sibs'] = dict(rel=sa, dot=sa, dotdot=sa, abs=sa, cwdfirst=sa, mod=sa, sub=sb, path_abs=sc, path_rel=sd,
+                     pkg=n['pkg'] + '.helper', pkgmod=n['pkg'] + '.helper')
     files = {
         n['prog']: prog_text(sa, 5 + k[0], k[1], k[2]),
         sa + '.py': sib_text(k[3]),
@@ -213,6 +225,9 @@ def kern_words(n, proj, case):
     tw, pw, kind, pm = target_words(n, proj, case['target'])
     if case['p']:
         w += ['-p', pm if pm else pw[0]]
+        if case['argset'] != 0:
+            # also select the helper module by name: `from helper import Registry` then registers the class object
+            w += ['-p', n['sibs'][case['target']]]
     if case['i']:
         w += ['-i', '1']
     s = setup_word(n, case['setup'])
